@@ -13,6 +13,7 @@ RULE = ('case = byte stream interleaving uniquely named well-formed items with m
         'connection is closed only for an over-long frame, and the recorder holds exactly the well-formed items (unspecified '
         'items may or may not appear); non-trivial = stream with >=1 malformed and >=1 well-formed item; distinct = streams')
 RULE_MORE = (' Also: PICKLE_RECEIVER_MAX_LENGTH raised / lowered / default with frames around the maximum, USE_WHITELIST configurations, names with (malformed) tags, python2 frames with names that are not UTF-8.')
+RULE_MORE = RULE_MORE + ' Round 12: frames with 21-130 mostly malformed entries.'
 RULE = RULE + RULE_MORE
 EXHAUSTIVE = {'quick': False, 'thorough': False}
 EXHAUSTIVE_OVER = 'single cut positions of streams <= 600 bytes'
